@@ -100,6 +100,9 @@ func genGeneric(prop string, tweak func(g *genCtx), mix Mix) func(seed, run int6
 				g.tmpl = (*genCtx).tmplDeepChain
 			case x < 9:
 				g.tmpl = (*genCtx).tmplHeal
+			case x < 11:
+				// a cycle no registration-time check can see, met while resolving
+				g.tmpl = (*genCtx).tmplCrossSiblingCycle
 			}
 		}
 		if g.tmpl != nil {
